@@ -579,6 +579,8 @@ impl Rng {
 /// changes, a warm-up that fills every list) occur, not only uniform noise:
 ///   0 uniform   1 hot set (3 keys get 70% of the keyed operations)   2 scans (bursts of puts of consecutive keys)
 ///   3 two phases (first half on the lower half of the keys, second half on the upper half)
+/// Independently, half of the histories use only a random SUBSET of the keys (2 .. all of them), so that caches that
+/// never fill up, lists that stay short next to lists that are full, and nearly drained segments are visited as well.
 pub fn random_hist(ops: &[Value], len: usize, rng: &mut Rng) -> Vec<Value> {
     let real: Vec<&Value> = ops.iter().filter(|o| o["op"] != "ro").collect();
     let puts: Vec<&Value> = real.iter().copied().filter(|o| o["op"].as_str().map_or(false, |s| s.contains("put"))).collect();
@@ -586,6 +588,15 @@ pub fn random_hist(ops: &[Value], len: usize, rng: &mut Rng) -> Vec<Value> {
     keys.sort();
     keys.dedup();
     let profile = rng.below(4);
+    if rng.below(2) == 0 && keys.len() > 2 {
+        let m = 2 + rng.below(keys.len() as u64 - 1) as usize;
+        while keys.len() > m {
+            let i = rng.below(keys.len() as u64) as usize;
+            keys.swap_remove(i);
+        }
+        keys.sort();
+    }
+    let active = keys.clone();
     let hot: Vec<u64> = (0..3).map(|_| keys.get(rng.below(keys.len() as u64) as usize).copied().unwrap_or(0)).collect();
     let key_ok = |o: &Value, want: &dyn Fn(u64) -> bool| o.get("k").and_then(|k| k.as_u64()).map_or(true, want);
     let mut h = vec![];
@@ -610,7 +621,11 @@ pub fn random_hist(ops: &[Value], len: usize, rng: &mut Rng) -> Vec<Value> {
         let pool: &Vec<&Value> = if !puts.is_empty() && rng.below(100) < 45 { &puts } else { &real };
         let mut pick = pool[rng.below(pool.len() as u64) as usize];
         // bias the key of keyed operations according to the profile (a few retries, then take what came)
-        for _ in 0..6 {
+        for _ in 0..12 {
+            if !key_ok(pick, &|k| active.binary_search(&k).is_ok()) {
+                pick = pool[rng.below(pool.len() as u64) as usize];
+                continue;
+            }
             let ok = match profile {
                 1 => rng.below(100) >= 70 || key_ok(pick, &|k| hot.contains(&k)),
                 3 => {
